@@ -39,9 +39,9 @@ let show_tobs_list (r : tobs list option) : string =
 (* ---- registers ---------------------------------------------------------------------- *)
 let parse_reg (s : string) : reg =
   match s with
-  | "A" -> RA | "B" -> RB | "BA" -> RBA | "IL" -> RIL | "IH" -> RIH | "I" -> RI | "X" -> RX | "Y" -> RY
-  | "U" -> RU | "S" -> RS | "PC" -> RPC | "F" -> RF | "FC" -> RFC | "FZ" -> RFZ
-  | _ -> if String.length s > 4 && String.sub s 0 4 = "TEMP" then RTEMP (nat_of_int (ios (String.sub s 4 (String.length s - 4))))
+  | "A" -> GA | "B" -> GB | "BA" -> GBA | "IL" -> GIL | "IH" -> GIH | "I" -> GI | "X" -> GX | "Y" -> GY
+  | "U" -> GU | "S" -> GS | "PC" -> GPC | "F" -> GF | "FC" -> GFC | "FZ" -> GFZ
+  | _ -> if String.length s > 4 && String.sub s 0 4 = "TEMP" then GTEMP (nat_of_int (ios (String.sub s 4 (String.length s - 4))))
          else failwith ("bad reg " ^ s)
 
 let parse_rop (s : string) : rop =
@@ -55,8 +55,97 @@ let parse_rop (s : string) : rop =
 let show_nl (l : n list) : string = String.concat "," (List.map (fun x -> string_of_int (int_of_n x)) l)
 let show_nll (l : n list list) : string = String.concat ";" (List.map show_nl l)
 
+(* ---- decoder -------------------------------------------------------------------------- *)
+let bytes_of_hex (h : string) : n list =
+  if h = "-" then [] else
+  List.init (String.length h / 2) (fun i -> n_of_int (int_of_string ("0x" ^ String.sub h (2 * i) 2)))
+let hex_of_bytes (l : n list) : string =
+  if l = [] then "-" else String.concat "" (List.map (fun b -> Printf.sprintf "%02x" (int_of_n b)) l)
+
+let regname_s (r : regname) : string =
+  match r with RA -> "A" | RB -> "B" | RBA -> "BA" | RIL -> "IL" | RIH -> "IH" | RI -> "I" | RX -> "X" | RY -> "Y"
+  | RU -> "U" | RS -> "S" | RF -> "F" | RPC -> "PC" | RFC -> "FC" | RFZ -> "FZ" | RIMR -> "IMR"
+
+let cond_s (c : cond option) : string =
+  match c with None -> "" | Some CZ -> "Z" | Some CNZ -> "NZ" | Some CC -> "C" | Some CNC -> "NC"
+
+let cls_base (c : icls) : string =
+  match c with
+  | I_NOP -> "NOP" | I_RETI -> "RETI" | I_JP_Abs -> "JP" | I_JP_Rel -> "JP" | I_CALL -> "CALL" | I_RET -> "RET"
+  | I_RETF -> "RETF" | I_MV -> "MV" | I_MVL -> "MVL" | I_MVLD -> "MVLD" | I_PRE -> "PRE" | I_PUSHU -> "PUSHU"
+  | I_POPU -> "POPU" | I_PUSHS -> "PUSHS" | I_POPS -> "POPS" | I_ADD -> "ADD" | I_ADC -> "ADC" | I_SUB -> "SUB"
+  | I_SBC -> "SBC" | I_ADCL -> "ADCL" | I_SBCL -> "SBCL" | I_DADL -> "DADL" | I_DSBL -> "DSBL" | I_AND -> "AND"
+  | I_OR -> "OR" | I_XOR -> "XOR" | I_TEST -> "TEST" | I_CMP -> "CMP" | I_CMPW -> "CMPW" | I_CMPP -> "CMPP"
+  | I_ROR -> "ROR" | I_ROL -> "ROL" | I_SHL -> "SHL" | I_SHR -> "SHR" | I_DSLL -> "DSLL" | I_DSRL -> "DSRL"
+  | I_INC -> "INC" | I_DEC -> "DEC" | I_EX -> "EX" | I_EXL -> "EXL" | I_WAIT -> "WAIT" | I_PMDF -> "PMDF"
+  | I_SWAP -> "SWAP" | I_SC -> "SC" | I_RC -> "RC" | I_TCL -> "TCL" | I_HALT -> "HALT" | I_OFF -> "OFF"
+  | I_IR -> "IR" | I_RESET -> "RESET" | I_Unknown -> "UnknownInstruction"
+
+let optname_s (o : optname) : string =
+  match o with ON_JPF -> "JPF" | ON_CALLF -> "CALLF" | ON_MVW -> "MVW" | ON_MVP -> "MVP" | ON_EXW -> "EXW" | ON_EXP -> "EXP"
+
+(* Instruction.name() of each class *)
+let mnemonic (i : instr) : string =
+  let e = i.i_ent in
+  let base = match e.d_optname with Some o -> optname_s o | None -> cls_base e.d_cls in
+  match e.d_cls with
+  | I_JP_Abs -> base ^ cond_s e.d_cond
+  | I_JP_Rel -> "JR" ^ cond_s e.d_cond
+  | I_PRE -> Printf.sprintf "PRE%02x" (int_of_n i.i_opc)
+  | I_Unknown -> Printf.sprintf "???_(%02X)" (int_of_n i.i_opc)
+  | _ -> base
+
+let off_s (o : n option) : string = match o with None -> "-" | Some v -> string_of_int (int_of_n v)
+let d = fun x -> string_of_int (int_of_n x)
+
+let dump_op (o : operand) : string =
+  match o with
+  | OImm8 v -> "i8:" ^ d v
+  | OImm16 v -> "i16:" ^ d v
+  | OImm20 (lo, mid, hi) -> Printf.sprintf "i20:%s.%s.%s" (d lo) (d mid) (d hi)
+  | OImmOff (neg, v) -> Printf.sprintf "off%s:%s" (if neg then "-" else "+") (d v)
+  | OIMem (w, n) -> Printf.sprintf "im%s:%s" (d w) (d n)
+  | OReg (r, _) -> "r:" ^ regname_s r
+  | ORegB -> "r:B" | ORegIL -> "r:IL" | ORegIMR -> "r:IMR" | ORegF -> "r:F" | ORegPC -> "r:PC"
+  | OReg3 raw -> "r3:" ^ d raw
+  | ORegPair (sz, raw) -> Printf.sprintf "rp%s:%s" (d sz) (d raw)
+  | OEMemAddr (w, lo, mid, hi) -> Printf.sprintf "ea%s:%s.%s.%s" (d w) (d lo) (d mid) (d hi)
+  | OEMemReg (w, raw, off) -> Printf.sprintf "er%s:%s:%s" (d w) (d raw) (off_s off)
+  | OEMemIMem (w, mode, n, off) -> Printf.sprintf "ei%s:%s:%s:%s" (d w) (d mode) (d n) (off_s off)
+  | ORegIMemOff (dst, raw, n, off) -> Printf.sprintf "rio%s:%s:%s:%s" (b2s dst) (d raw) (d n) (off_s off)
+  | OEMemIMemOff (dst, mode, n1, n2, off) -> Printf.sprintf "eio%s:%s:%s:%s:%s" (b2s dst) (d mode) (d n1) (d n2) (off_s off)
+
+let show_cres (with_mn : bool) (c : cres) : string =
+  match c with
+  | CAccept (len, i) -> if with_mn then Printf.sprintf "A:%d:%s" (int_of_nat len) (mnemonic i) else Printf.sprintf "A:%d" (int_of_nat len)
+  | CReject -> "R"
+  | CCrash -> "C:NotImplementedError"
+
+let dec_case (w : string list) : string =
+  let bs = bytes_of_hex (List.nth w 0) in
+  let filler = if List.length w > 1 then bytes_of_hex (List.nth w 1) else [] in
+  let dpart =
+    match dec_decode bs with
+    | DOk i ->
+        let enc = match dec_encode i with Some e -> hex_of_bytes e | None -> "ERR:AssertionError" in
+        Printf.sprintf "D=OK %d %s %d %s %s %s" (int_of_nat i.i_len)
+          (match i.i_pre with None -> "-" | Some p -> d p) (int_of_n i.i_opc) (mnemonic i)
+          (if i.i_ops = [] then "-" else String.concat "," (List.map dump_op i.i_ops)) enc
+    | DShort | DInvalid -> "D=NONE"
+    | DAssert -> "D=ASSERT"
+    | DNotImpl -> "D=NOTIMPL" in
+  let zeros = List.init 8 (fun _ -> N0) in
+  let emu =
+    match dec_emu (bs @ filler @ zeros) with
+    | EFetch (len, i) -> Printf.sprintf "F:%d:%s" (int_of_nat len) (mnemonic i)
+    | EFallback opc -> "FB:" ^ d opc
+    | ECrash -> "C:AssertionError" in
+  Printf.sprintf "%s info=%s text=%s llil=%s emu=%s" dpart (show_cres false (dec_info bs)) (show_cres true (dec_text bs))
+    (show_cres false (dec_llil bs)) emu
+
 let handle (w : string list) : string =
   match w with
+  | "dec" :: rest -> dec_case rest
   | "regs_py" :: ops -> show_nll (regs_py_run (List.map parse_rop ops))
   | "regs_rs" :: ops -> show_nll (regs_rs_run (List.map parse_rop ops))
   | "timer_py" :: en :: pm :: ps :: isr :: ops ->
